@@ -360,10 +360,17 @@ fn chunk_strategy(p: &GenParams) -> BoxedStrategy<Vec<Op>> {
             if reopens {
                 o.push(Op::Reopen(Cfg { memtable, file, block, reuse: false }));
             }
+            // a third of the chunks re-open the (short) log for appending first and only then fill the
+            // block up to its last few bytes: the re-opened writer has to know where in the block it is
+            let tail_after_reopen = reopens && r % 3 == 0;
+            if tail_after_reopen {
+                o.push(Op::Put(k, Val { len: 40 + r as u32, compressible: false }));
+                o.push(Op::Reopen(Cfg { memtable, file, block, reuse: true }));
+            }
             o.push(Op::PutTail(k, r));
             // half of the chunks go on writing with the same log writer (it pads the block itself),
             // the other half re-open the log for appending first
-            if reopens && reuse_last {
+            if reopens && reuse_last && !tail_after_reopen {
                 o.push(Op::Reopen(Cfg { memtable, file, block, reuse: true }));
             }
             let keys: Vec<Sel> = after.iter().map(|(s, _)| *s).collect();
